@@ -1,0 +1,55 @@
+//go:build verif
+
+package vegeta
+
+import (
+	"context"
+	"net"
+	"net/http"
+	"time"
+)
+
+// Verification hooks (build tag `verif` only): exports of unexported pieces for
+// the external correspondence harness. Add-only; no existing line is touched.
+
+// VerifAttack is an exported handle on the unexported per-attack state.
+type VerifAttack struct{ atk *attack }
+
+// VerifNewAttack creates the per-attack state `Attack` would create.
+func VerifNewAttack(name string, began time.Time, seq uint64) *VerifAttack {
+	return &VerifAttack{atk: &attack{name: name, began: began, seq: seq}}
+}
+
+// VerifHit runs the unexported hit path once.
+func (a *Attacker) VerifHit(tr Targeter, va *VerifAttack) *Result { return a.hit(tr, va.atk) }
+
+// VerifBaseDial is an option installing f as the transport's dial function; options
+// applied after it (DNSCaching, ConnectTo) wrap it exactly as they wrap the default dialer.
+func VerifBaseDial(f func(ctx context.Context, network, addr string) (net.Conn, error)) func(*Attacker) {
+	return func(a *Attacker) {
+		if tr, ok := a.client.Transport.(*http.Transport); ok {
+			tr.DialContext = f
+		}
+	}
+}
+
+// VerifDialContext returns the dial function currently installed in the transport.
+func (a *Attacker) VerifDialContext() func(ctx context.Context, network, addr string) (net.Conn, error) {
+	if tr, ok := a.client.Transport.(*http.Transport); ok {
+		return tr.DialContext
+	}
+	return nil
+}
+
+// VerifFirstOfEachIPFamily exports firstOfEachIPFamily.
+func VerifFirstOfEachIPFamily(ips []string) []string { return firstOfEachIPFamily(ips) }
+
+// VerifStopped reports whether the stop channel is closed.
+func (a *Attacker) VerifStopped() bool {
+	select {
+	case <-a.stopch:
+		return true
+	default:
+		return false
+	}
+}
